@@ -30,10 +30,25 @@ pub fn solve_low<F: IVP, S: SolOut>(
     o: &LowOpts,
     solout: &mut S,
 ) -> Result<IntegrationResult, String> {
+    solve_low_opt(m, f, x0, xend, y0, rtol, atol, o, Some(solout))
+}
+
+/// the same with the callback optional (`None`: the solver runs without a SolOut)
+pub fn solve_low_opt<F: IVP, S: SolOut>(
+    m: Meth,
+    f: &F,
+    x0: f64,
+    xend: f64,
+    y0: &[f64],
+    rtol: &Tol,
+    atol: &Tol,
+    o: &LowOpts,
+    solout: Option<&mut S>,
+) -> Result<IntegrationResult, String> {
     let r = match m {
         Meth::RK4 => {
             let h = o.first_step.unwrap_or((xend - x0) / 100.0);
-            RK4::builder().maybe_max_steps(o.max_steps).maybe_dense_output(o.dense).build().solve(f, x0, y0, xend, h, Some(solout))
+            RK4::builder().maybe_max_steps(o.max_steps).maybe_dense_output(o.dense).build().solve(f, x0, y0, xend, h, solout)
         }
         Meth::RK23 => RK23::builder()
             .maybe_first_step(o.first_step)
@@ -41,21 +56,21 @@ pub fn solve_low<F: IVP, S: SolOut>(
             .maybe_max_steps(o.max_steps)
             .maybe_dense_output(o.dense)
             .build()
-            .solve(f, x0, y0, xend, rtol.to_ivp(), atol.to_ivp(), Some(solout)),
+            .solve(f, x0, y0, xend, rtol.to_ivp(), atol.to_ivp(), solout),
         Meth::DOPRI5 => DOPRI5::builder()
             .maybe_first_step(o.first_step)
             .maybe_max_step(o.max_step)
             .maybe_max_steps(o.max_steps)
             .maybe_dense_output(o.dense)
             .build()
-            .solve(f, x0, y0, xend, rtol.to_ivp(), atol.to_ivp(), Some(solout)),
+            .solve(f, x0, y0, xend, rtol.to_ivp(), atol.to_ivp(), solout),
         Meth::DOP853 => DOP853::builder()
             .maybe_first_step(o.first_step)
             .maybe_max_step(o.max_step)
             .maybe_max_steps(o.max_steps)
             .maybe_dense_output(o.dense)
             .build()
-            .solve(f, x0, y0, xend, rtol.to_ivp(), atol.to_ivp(), Some(solout)),
+            .solve(f, x0, y0, xend, rtol.to_ivp(), atol.to_ivp(), solout),
         Meth::RADAU => {
             let b = RADAU::builder()
                 .maybe_first_step(o.first_step)
@@ -65,9 +80,9 @@ pub fn solve_low<F: IVP, S: SolOut>(
                 .maybe_newton_maxiter(o.newton_maxiter)
                 .maybe_dense_output(o.dense);
             if o.identity_mass {
-                b.mass_storage(MatrixStorage::Identity).build().solve(f, x0, y0, xend, rtol.to_ivp(), atol.to_ivp(), Some(solout))
+                b.mass_storage(MatrixStorage::Identity).build().solve(f, x0, y0, xend, rtol.to_ivp(), atol.to_ivp(), solout)
             } else {
-                b.build().solve(f, x0, y0, xend, rtol.to_ivp(), atol.to_ivp(), Some(solout))
+                b.build().solve(f, x0, y0, xend, rtol.to_ivp(), atol.to_ivp(), solout)
             }
         }
         Meth::BDF => BDF::builder()
@@ -77,7 +92,7 @@ pub fn solve_low<F: IVP, S: SolOut>(
             .maybe_newton_tol(o.newton_tol)
             .maybe_newton_maxiter(o.newton_maxiter)
             .build()
-            .solve(f, x0, y0, xend, rtol.to_ivp(), atol.to_ivp(), Some(solout)),
+            .solve(f, x0, y0, xend, rtol.to_ivp(), atol.to_ivp(), solout),
     };
     r.map_err(|e| format!("{}", e))
 }
